@@ -1,6 +1,7 @@
 package harness
 
 import (
+	"bytes"
 	"context"
 	"errors"
 	"fmt"
@@ -160,6 +161,8 @@ func (w *World) Start(op Op, ctx context.Context) {
 			ival, err = c.P.Add(ctx, op.Tok, op.Delta)
 		case "rev":
 			val, err = c.P.Rev(ctx, op.Tok)
+		case "reader":
+			val, err = c.P.ReadAll(ctx, op.Tok, bytes.NewReader(Payload(op.Tok, op.Size)))
 		case "sub", "subretry":
 			var ch <-chan int
 			if op.Kind == "sub" {
